@@ -8,6 +8,7 @@ pub fn consts() -> Vec<(&'static str, u64)> {
     let mut v = Vec::new();
     v.extend(wal::layout());
     v.extend(header::layout());
+    v.extend(page::layout());
     v
 }
 
@@ -880,6 +881,77 @@ pub mod locktap {
     impl<G: DerefMut> DerefMut for Tapped<G> {
         fn deref_mut(&mut self) -> &mut Self::Target {
             &mut self.guard
+        }
+    }
+}
+
+/// One slotted B+tree page in memory: the cell-level primitives of storage::core::buffer
+/// (insert, remove, replace, defragment, drain) and the bookkeeping they keep.
+pub mod page {
+    use crate::storage::Allocatable;
+    use crate::storage::cell::{CELL_HEADER_SIZE, OwnedCell};
+    use crate::storage::core::traits::{BtreeMetadata, BtreeOps};
+    use crate::storage::page::{BTREE_PAGE_HEADER_SIZE, BtreePage};
+
+    pub fn layout() -> Vec<(&'static str, u64)> {
+        vec![
+            ("CELL_HEADER_SIZE", CELL_HEADER_SIZE as u64),
+            ("BTREE_PAGE_HEADER_SIZE", BTREE_PAGE_HEADER_SIZE as u64),
+        ]
+    }
+
+    pub struct Pg(BtreePage);
+
+    /// a cell of `len` payload bytes: the identity in the first eight, a byte derived from it in the rest
+    fn make(id: u64, len: usize) -> OwnedCell {
+        let mut data = vec![(id as u8) ^ 0x5a; len.max(8)];
+        data[..8].copy_from_slice(&id.to_le_bytes());
+        OwnedCell::new(&data)
+    }
+
+    /// `(identity, padded payload length)`; identity `u64::MAX` when the bytes are not the ones `make` wrote
+    fn show(c: &OwnedCell) -> (u64, usize) {
+        let d = c.effective_data();
+        if d.len() < 8 {
+            return (u64::MAX, c.total_size() - CELL_HEADER_SIZE);
+        }
+        let id = u64::from_le_bytes(d[..8].try_into().unwrap());
+        let ok = d[8..].iter().all(|b| *b == (id as u8) ^ 0x5a);
+        (if ok { id } else { u64::MAX }, c.total_size() - CELL_HEADER_SIZE)
+    }
+
+    fn kind(e: std::io::Error) -> String {
+        format!("{:?}", e.kind())
+    }
+
+    impl Pg {
+        pub fn new(page_size: usize) -> Self {
+            Pg(BtreePage::alloc(1, page_size))
+        }
+        pub fn capacity(&self) -> usize {
+            self.0.capacity()
+        }
+        pub fn insert(&mut self, index: usize, id: u64, len: usize) -> Result<usize, String> {
+            self.0.insert(index, make(id, len)).map_err(kind)
+        }
+        pub fn remove(&mut self, index: usize) -> Result<(u64, usize), String> {
+            self.0.remove(index).map(|c| show(&c)).map_err(kind)
+        }
+        pub fn replace(&mut self, index: usize, id: u64, len: usize) -> Result<(u64, usize), String> {
+            self.0.replace(index, make(id, len)).map(|c| show(&c)).map_err(kind)
+        }
+        pub fn defragment(&mut self) {
+            self.0.defragment()
+        }
+        pub fn drain_all(&mut self) -> Vec<(u64, usize)> {
+            self.0.drain(..).map(|c| show(&c)).collect()
+        }
+        /// `(slot offsets, free space pointer, free space)`
+        pub fn state(&self) -> (Vec<u16>, u32, u32) {
+            (self.0.slot_array().to_vec(), self.0.free_space_pointer(), self.0.free_space())
+        }
+        pub fn cells(&self) -> Vec<(u64, usize)> {
+            (0..self.0.num_slots()).map(|i| show(&self.0.owned_cell(i))).collect()
         }
     }
 }
